@@ -6,6 +6,8 @@ QUICK = [
                 "buslost=1", "win=03", "longtoany=1", "lateecho=1"]),
     ("enh-faults", ["enhanced=1", "req=0:3115b5090100", "req=1:31feb50900", "submit=1", "qq=", "nn=0", "snn=0", "echofaults=0", "readerr=1",
                     "buslost=1", "win=03", "longtoany=1"]),
+    ("chunk2-faults", ["chunk2=1", "req=0:3115b5090100", "req=1:31feb50900", "submit=1", "qq=", "nn=0", "snn=0", "echofaults=0", "readerr=1",
+                       "buslost=1", "win=03", "longtoany=1"]),
     ("restart", ["req=2:3115b5090100:2", "submit=1", "qq=", "nn=0", "snn=0", "echofaults=0", "win=03", "buslost=1", "longtoany=1"]),
 ]
 THOROUGH = QUICK + [
@@ -20,3 +22,31 @@ def run(ctx):
     n = 400000 if ctx.thorough else 40000
     rnd = [("rnd-plain", n, ["req=0:3115b50900", "req=1:3115b50900", "req=2:3115b50900:2", "buslost=1", "readerr=1"])]
     pc.run_configs(ctx, "C04", "q", THOROUGH if ctx.thorough else QUICK, random_runs=rnd)
+    liveness(ctx)
+
+
+LIVE = ["req=0:3115b5090100", "req=1:31feb50900", "req=2:3103b50900:1", "submit=1", "qq=", "nn=0", "snn=0", "echofaults=0", "readerr=1",
+        "buslost=1", "win=03", "longtoany=1", "arbnone=0"]
+
+
+def liveness(ctx):
+    """eventual completion: TLC checks a temporal property (spec/ProtoLive.tla) on the real handler's graph"""
+    import json
+    from vf import recs, tlc, graph
+    exe = pc.harness()
+    wd = recs.workdir("C04")
+    gf = wd + "/g-live.ndjson"
+    out = recs.run_harness(ctx, exe, ["graph", gf] + LIVE + ["events=rx,to,sub,subcb,ntf,del,fin,bad", "maxnodes=400000"])
+    info = json.loads(out.strip().splitlines()[-1])
+    if not info.get("fixpoint"):
+        raise RuntimeError("liveness graph without fix-point: %s" % info)
+    res = tlc.run("ProtoLive", "ProtoLive.cfg", env={"VF_GRAPH": gf}, workers=4, heap="8g", timeout=1200, tag="C04-live-%d" % ctx.seed)
+    ctx.log("liveness", info, {k: res[k] for k in ("generated", "distinct", "wall_s")}, res["violated"])
+    if res["violated"]:
+        toks = graph.tokens_of_trace(res["trace"])
+        ctx.violation("C04:request-pending-forever", "lasso in the real handler's graph on which a request stays pending although SYNs / signal loss "
+                      "keep occurring and every arbitration gets a timely outcome (%d steps)" % len(toks), {"harness_args": LIVE, "tokens": toks})
+    ctx.coverage["liveness"] = {"graph_nodes": info["nodes"], "graph_edges": info["edges"], "product_states": res["distinct"],
+                                "property": "([]<>progress) => (pending(r) ~> ~pending(r)) under WF(Next)", "harness_args": " ".join(LIVE)}
+    ctx.coverage["states"] += res["distinct"]
+    ctx.coverage["transitions"] += res["generated"]
